@@ -134,3 +134,22 @@ add("C16", "parsed-CLI-output vs reference rows over option vectors; dump->load 
     "at arbitrary non-monotone column numbers with nuisance columns are loaded via --field / -c1 -p1 -c2 -p2 and "
     "compared with the reference binning and per-pixel value sums.",
     "DESIGN.md section 4 C16")
+add("C10", "flatness oracle on cooler's own returned weights + dense-procedure mask oracle over option vectors",
+    "The real balance_cooler is run on generated symmetric coolers over option vectors (mode, ignore_diags, min_nnz, "
+    "min_count, mad_max, blacklist, tol, max_iters, x0, rescale, chunk size). When convergence is reported, the NaN set "
+    "is compared with a dense re-implementation of the documented filters (tie band on the MAD cutoff) and - "
+    "independently of that reference - the row sums of w(x)w o A over retained bins, computed from the generated matrix "
+    "and the RETURNED weights, must be flat: var <= 4*tol/scale^2, |mean-1| <= sqrt(4*tol)/scale (per chromosome in cis "
+    "mode). Trans-only: literal clause is a listed known finding; the c-weighted invariant is checked. Evidence reports "
+    "the maximum observed slack ratio.",
+    "DESIGN.md section 4 C10")
+add("C11", "history of executions (chunk sizes x map functors x real pools) checked offline: agreement, dense-procedure reference, exactly-once span log",
+    "For each cooler/option vector the real balance_cooler is executed under chunk sizes 1..>nnz/None and map "
+    "implementations: builtin, eager, reverse-evaluation, lazy generator, seeded permuted and bursty UNORDERED functors, "
+    "and real multiprocess Pool.map/imap/imap_unordered with injected per-task delays; all weight vectors must agree "
+    "with each other and with the dense reference (rtol 1e-9, NaN pattern), scale/converged too; probes on "
+    "MultiplexDataPipe.reduce and chunkgetter log every pass and span fetched (incl. in workers) and an offline checker "
+    "verifies fetched spans == keys and that they tile the pass's pixel range exactly once; split().pipe().reduce/"
+    "gather is driven directly with counting pipelines. Evidence reports distinct completion orders and worker "
+    "assignments observed.",
+    "DESIGN.md section 4 C11")
